@@ -101,6 +101,7 @@ def discover_stages(project):
                  and any(k.arg == "target" for k in c.keywords)]
         for pc in procs:
             st = Stage(f)
+            st.project = project
             st.proc_call = pc
             tgt = [k.value for k in pc.keywords if k.arg == "target"][0]
             st.worker = _resolve_function(project, f, tgt)
